@@ -140,7 +140,7 @@ inductive EOut
   | exit (code : Nat) (kind : ExitKind)
   | raise (exc : Str)
   | unmodelled (why : String)
-  deriving Repr
+  deriving DecidableEq, Repr
 
 /-! ### lexing (`_parse_optional`, `_get_option_tuples`) -/
 
